@@ -1036,6 +1036,57 @@ def order_of_requests(R, seed):
             if lacking or shallow:
                 R.violation('member of the class\'s own type (%s, variants: %s): %d registered variant(s) lack it; nesting stops early below %s' % (kind, pre, len(lacking), shallow),
                             case, mech='self_member:variant_created_meanwhile_lacks_member')
+    # members that have a public name of their own (sub_name), given when they are declared or by the derivation: what a derivation asks of
+    # such a member is what the protocols hold requests to, and a member renamed by a derivation is read under the name it is written under
+    from lxml import etree as _et
+    from spyne.protocol.xml import XmlDocument
+    from spyne.protocol.json import JsonDocument
+    px, pj = XmlDocument(validator='soft'), JsonDocument(validator='soft')
+
+    def read_xml(cls, tag, text):
+        try:
+            o = px.from_element(None, cls, _et.fromstring('<C xmlns="urn:vf:c15:or"><%s>%s</%s></C>' % (tag, text, tag)))
+            return ('ok', getattr(o, 'f', None))
+        except Exception as e:
+            return ('refused', type(e).__name__)
+
+    def read_json(cls, key, text):
+        try:
+            o = pj._doc_to_object(None, cls, {key: text}, pj.validator)
+            return ('ok', getattr(o, 'f', None))
+        except Exception as e:
+            return ('refused', type(e).__name__)
+    for req, bad, good in ((dict(max_len=3), 'toolong', 'ok'), (dict(pattern='[a-c]+'), 'xyz', 'abc'), (dict(min_len=2), 'a', 'ab'), (dict(values=['aa', 'bb']), 'cc', 'aa')):
+        for declared_name in (None, 'F'):
+            R.evaluations += 1
+            C = fresh({'f': Unicode(sub_name=declared_name) if declared_name else Unicode})
+            V = C.customize(child_attrs={'f': req})
+            name = declared_name or 'f'
+            case = {'scenario': 'order_of_requests', 'seed': seed, 'public_name': declared_name, 'request': sorted(req)}
+            for reader, rname in ((read_xml, 'xml'), (read_json, 'json')):
+                vb, vg = reader(V, name, bad), reader(V, name, good)
+                R.count('public_name_reads')
+                if vb[0] != 'refused' or vg != ('ok', good):
+                    R.violation('%s: member f (public name %r) of a variant derived with child_attrs=%r: %r is %s, %r is %s' % (rname, declared_name, req, bad, vb, good, vg), case,
+                                mech='child_attrs_not_applied_to_member_with_public_name' if declared_name else 'child_attrs_not_applied')
+        # the derivation gives the member its public name
+        R.evaluations += 1
+        C = fresh({'f': Unicode})
+        W = C.customize(child_attrs={'f': dict(req, sub_name='Renamed')})
+        case = {'scenario': 'order_of_requests', 'seed': seed, 'renamed_by_derivation': True, 'request': sorted(req)}
+        el = _et.Element('r')
+        px.to_parent(None, W, W(f=good), el, 'urn:vf:c15:or')
+        written_x = [c.tag.partition('}')[2] for c in el[0]]
+        written_j = list(pj._object_to_doc(W, W(f=good)))
+        for reader, rname, written in ((read_xml, 'xml', written_x), (read_json, 'json', written_j)):
+            R.count('public_name_reads')
+            if written != ['Renamed']:
+                R.violation('%s: member renamed by child_attrs is written as %r' % (rname, written), case, mech='renamed_member:written_under_other_name')
+                continue
+            back, refused = reader(W, 'Renamed', good), reader(W, 'Renamed', bad)
+            if back != ('ok', good) or refused[0] != 'refused':
+                R.violation('%s: member renamed by child_attrs is written as <Renamed> but reading <Renamed>%s gives %r (and %r gives %r)' % (rname, good, back, bad, refused), case,
+                            mech='renamed_member:not_read_back')
     # a derived number type that is asked to admit more digits than its parent
     for a, b in ((5, 8), (3, 4), (8, 5), (2, 30)):
         for fa, fb in ((0, 0), (2, 3), (0, 2)):
